@@ -44,6 +44,26 @@ class HTable(tables.Table):
         return iter(self.rows)
 
 
+class FuncCol(qc.EvalColumn):
+    """Column written after the repository's own example (beanquery/tests/tables.py): no __slots__, the
+    accessor kept as an instance attribute."""
+
+    def __init__(self, func, dtype):
+        super().__init__(dtype)
+        self.func = func
+
+    def __call__(self, row):
+        return self.func(row)
+
+
+class UTable(HTable):
+    """HTable whose columns are FuncCol instances (same class and datatype for several columns)."""
+
+    def __init__(self, cols, rows, name='t'):
+        super().__init__(cols, rows, name)
+        self.columns = {n: FuncCol((lambda row, i=i: row[i]), t) for i, (n, t) in enumerate(cols)}
+
+
 def connect(**tabs):
     """Bare connection with harness tables.  A ``postings`` table is needed by statements without
     FROM; when not given, the first table is also registered under that name."""
